@@ -16,7 +16,7 @@ package main
 //   quick   : ALL interleavings of 2 requests (70 / 20 per scenario) + a sample of 3-request ones
 //   thorough: ALL interleavings of 3 requests (34650 / 1680), sampled down to 5000 above that
 //
-// Correspondence (Corr/C15.v check_race_group, storage flavour `copy`): the model's run_il on the same
+// Correspondence (Corr/C15.v check_race_group_x, storage flavours `copy` and `strict`): the model's run_il_x on the same
 // schedule must give the same successes, the same requests succeeding, the same call sequences.
 // Monitor (Go side, both storage flavours): two or more successes on one credential (except refresh
 // tokens with rotation off, whose re-use the property allows) -> a Finding whose signature is
@@ -29,6 +29,13 @@ package main
 //                  (consume call or, without one, completion of the request) - e.g. a credential that
 //                  is not consumed at all, so that even serial presentations succeed
 // Only `overlap` is a known finding (K1-K4: the storage interfaces offer no atomic take).
+// Storage flavours: copy and alias (stores.go) and STRICT (suite_c15strict.go: Delete of something absent is an
+// error) - copy and strict are compared with the model (Corr/C15.v check_race_group_x over RaceStrict.sem_of).
+// On the strict flavour, where the consume is a Delete, two winners are named
+//   race:<kind>:strict-store:<class>              (never known: a request went on although its delete failed)
+// END TO END: after racing /authorize requests every code / callback id handed out is redeemed / continued;
+// two or more TOKEN RESPONSES out of one request_uri are named
+//   race:<kind>:several-token-responses           (never known)
 
 import (
 	"context"
@@ -76,6 +83,9 @@ var c15ClientAll = ClientSpec{ID: 1, Grants: []string{"authorization_code", "ref
 	RespTypes: c15RespTypes, Redirects: []string{"https://c1.example/cb"}, Scopes: "openid email", CibaMode: "poll"}
 
 func (sc c15Scenario) spec(flavour string) WorldSpec {
+	if flavour == "strict" { // the copy stores, made strict after the prefix (suite_c15strict.go)
+		flavour = "copy"
+	}
 	if sc.RespType == "" {
 		return WorldSpec{Profile: "openid", Opts: c15Opts(sc.Rotation), Dyn: []ClientSpec{c15Client}, Flavour: flavour}
 	}
@@ -313,6 +323,25 @@ type c15Run struct {
 	Err           string // harness-level failure (timeout, prefix refused)
 	Window        int    // lookups scheduled before the first consume, at the flow's call positions
 	ObsWindow     int    // observed: requests whose lookup call was performed before the first consume call performed
+	// END TO END (racing /authorize requests): after the race every code / callback id handed out was redeemed /
+	// continued, in request order or (Rev) in the reverse order; E2E[i]: request i's artifact ended in a token response
+	Follow bool
+	Rev    bool
+	E2E    []bool
+	E2EObs []Obs
+}
+
+// the storage reports an error for a Delete of something absent (suite_c15strict.go)
+func (r *c15Run) strict() bool { return r.Flavour == "strict" }
+
+func (r *c15Run) e2eTokens() int {
+	n := 0
+	for _, b := range r.E2E {
+		if b {
+			n++
+		}
+	}
+	return n
 }
 
 const c15Timeout = 20 * time.Second
@@ -353,8 +382,8 @@ func (w *World) c15Request(o Op, req int) *http.Request {
 }
 
 // c15Execute: fresh world, prefix, k racing requests under the schedule.
-func c15Execute(sc c15Scenario, flavour string, k int, sched []int) (run c15Run) {
-	run = c15Run{Kind: sc.Kind, Flavour: flavour, Rotation: sc.Rotation, K: k, Sched: sched}
+func c15Execute(sc c15Scenario, flavour string, k int, sched []int, rev bool) (run c15Run) {
+	run = c15Run{Kind: sc.Kind, Flavour: flavour, Rotation: sc.Rotation, K: k, Sched: sched, Rev: rev}
 	spec := sc.spec(flavour)
 	run.Spec = spec
 	w, err := NewWorld(spec)
@@ -374,6 +403,9 @@ func c15Execute(sc c15Scenario, flavour string, k int, sched []int) (run c15Run)
 	w.step = len(sc.Prefix)
 	run.RaceOp = sc.Race(run.PrefixObs)
 	w.Stores.BeginRequest(nil, -1)
+	if flavour == "strict" {
+		c15MakeStrict(w.Stores)
+	}
 
 	events := make(chan c15Event, 4*k)
 	var abort bool
@@ -491,6 +523,45 @@ func c15Execute(sc c15Scenario, flavour string, k int, sched []int) (run c15Run)
 		run.OK[i] = c15Success(ob)
 		run.Status[i] = ob.Status
 	}
+	// END TO END: what the artifacts handed out by racing /authorize requests are worth afterwards
+	// (RaceStrict.e2e_outcomes): every callback id is continued with a policy that succeeds, every code is
+	// redeemed at the token endpoint, one request after the other
+	if run.RaceOp.Kind == "Authorize" {
+		run.Follow = true
+		run.E2E = make([]bool, k)
+		run.E2EObs = make([]Obs, k)
+		for j := 0; j < k; j++ {
+			i := j
+			if rev {
+				i = k - 1 - j
+			}
+			w.step = len(sc.Prefix) + k + 2*j
+			ob := run.Obs[i]
+			if !run.OK[i] {
+				continue
+			}
+			code := ob.NCode
+			if ob.Kind == "Page" {
+				cb := w.Exec(Op{Kind: "Callback", Cb: ob.H, Pol: c15Pol})
+				run.E2EObs[i] = cb
+				code = 0
+				if cb.Kind == "Nav" && cb.NErr == "" {
+					code = cb.NCode
+				}
+			} else if ob.Kind != "Nav" {
+				continue
+			}
+			if code == 0 {
+				continue
+			}
+			w.step = len(sc.Prefix) + k + 2*j + 1
+			t := c15Token("authorization_code")
+			t.Code, t.Redirect = code, "https://c1.example/cb"
+			tk := w.Exec(t)
+			run.E2EObs[i] = tk
+			run.E2E[i] = tk.Kind == "Tokens"
+		}
+	}
 	return
 }
 
@@ -558,8 +629,8 @@ func c15Kinds(l []CallKind) string {
 }
 
 func (r *c15Run) coq() string {
-	return fmt.Sprintf("mkRaceObs %s %s %s %d", cList(r.Sched, func(i int) string { return fmt.Sprintf("%d", i) }),
-		cList(r.OK, cB), cList(r.Logs, c15Kinds), r.Window)
+	return fmt.Sprintf("mkRaceObsX %s %s %s %d %s %s", cList(r.Sched, func(i int) string { return fmt.Sprintf("%d", i) }),
+		cList(r.OK, cB), cList(r.Logs, c15Kinds), r.Window, cB(r.Rev), cList(r.E2E, cB))
 }
 
 var c15KindCoq = map[CallKind]string{KCGet: "KCGet", KCSave: "KCSave", KCDel: "KCDel", KASave: "KASave", KAGet: "KAGet", KADel: "KADel",
@@ -570,7 +641,7 @@ func c15ScnCoq(sc c15Scenario, spec WorldSpec, prefix []Op, race Op) string {
 		cList(spec.Dyn, ClientSpec.coq), cList(prefix, Op.coq), race.coq(), c15KindCoq[sc.Lookup], c15KindCoq[sc.Consume])
 }
 
-const c15Header = `From Verif Require Import Base Scope Types Prog Pop Token Authorize System Config Race RaceUri.
+const c15Header = `From Verif Require Import Base Scope Types Prog Pop Token Authorize System Config Race RaceUri RaceStrict.
 From Verif.Corr Require Import C15.
 Local Open Scope N_scope.
 `
@@ -585,8 +656,8 @@ type c15Group struct {
 func (g *c15Group) coq(name string) string {
 	var b strings.Builder
 	r0 := g.runs[0]
-	fmt.Fprintf(&b, "Definition %s : racegroup := mkRaceGroup (%s %s)\n %s\n %d %s\n [", name, g.sc.Coq, cB(g.sc.Rotation),
-		c15ScnCoq(g.sc, r0.Spec, g.sc.Prefix, r0.RaceOp), g.k, cB(g.exhaustive))
+	fmt.Fprintf(&b, "Definition %s : racegroupx := mkRaceGroupX (%s %s)\n %s\n %d %s %s %s\n [", name, g.sc.Coq, cB(g.sc.Rotation),
+		c15ScnCoq(g.sc, r0.Spec, g.sc.Prefix, r0.RaceOp), g.k, cB(g.exhaustive), cB(r0.strict()), cB(r0.Follow))
 	for i := range g.runs {
 		if i > 0 {
 			b.WriteString(";\n  ")
@@ -606,6 +677,10 @@ func c15Signature(sc c15Scenario, run *c15Run) string {
 		} else {
 			class = "no-overlap"
 		}
+	}
+	if run.strict() && sc.Consume == KADel {
+		// on a strict storage the delete is a take: two winners mean that a request went on although ITS delete failed
+		return "race:" + sc.SigKind + ":strict-store:" + class
 	}
 	return "race:" + sc.SigKind + ":" + class
 }
@@ -648,10 +723,15 @@ func c15Replay(sc c15Scenario, run *c15Run) map[string]any {
 		raw = append(raw, truncate(o.Raw, 160))
 	}
 	tokens, codes, grants := c15Artifacts(run)
+	var e2eRaw []string
+	for _, o := range run.E2EObs {
+		e2eRaw = append(e2eRaw, truncate(o.Raw, 120))
+	}
 	return map[string]any{"suite": "c15", "kind": sc.Kind, "rotation": sc.Rotation, "flavour": run.Flavour, "requests": run.K,
 		"access_tokens_handed_out_by_the_authorization_endpoint": tokens, "codes_handed_out": codes, "grant_sessions_saved": grants,
 		"schedule": run.Sched, "succeeded": run.OK, "status": run.Status, "storage_calls_per_request": logs, "storage_calls_in_order": trace,
 		"lookups_before_first_consume_at_model_positions": run.Window, "lookups_before_first_consume_observed": run.ObsWindow,
+		"follow_ups_reversed": run.Rev, "ended_in_token_response": run.E2E, "token_responses_end_to_end": run.e2eTokens(), "follow_up_responses": e2eRaw,
 		"prefix": cList(sc.Prefix, Op.coq), "racing_request": run.RaceOp.coq(), "responses": raw,
 		"Spec": run.Spec, "Ops": append(append([]Op{}, sc.Prefix...), run.RaceOp)}
 }
@@ -666,9 +746,10 @@ func c15RunAll(sc c15Scenario, flavour string, k int, scheds [][]int, L, C int) 
 		go func(i int) {
 			defer wg.Done()
 			defer func() { <-sem }()
-			r := c15Execute(sc, flavour, k, scheds[i])
+			// the follow-ups (end to end) are made in request order on even schedule indexes, in reverse order on odd ones
+			r := c15Execute(sc, flavour, k, scheds[i], i%2 == 1)
 			if r.Err != "" { // once more, in case the machine was busy
-				r = c15Execute(sc, flavour, k, scheds[i])
+				r = c15Execute(sc, flavour, k, scheds[i], i%2 == 1)
 			}
 			r.Window = c15WindowCount(scheds[i], k, L, C)
 			r.ObsWindow = c15ObservedWindow(r.Trace, k, sc.Lookup, sc.Consume)
@@ -701,7 +782,11 @@ func init() {
 					continue
 				}
 				// a request served alone on the real provider must succeed
-				solo := c15Execute(sc, "copy", 1, nil)
+				solo := c15Execute(sc, "copy", 1, nil, false)
+				if solo.Err == "" && solo.OK[0] && solo.Follow && (sc.RespType == "" || c15RtContains(sc.RespType, "code")) && !solo.E2E[0] {
+					addFinding("harness:c15:solo-e2e:"+sc.Kind, fmt.Sprintf("the %s scenario served alone: the code / callback id handed out does not end in a token response: %s", sc.Kind, truncate(solo.E2EObs[0].Raw, 200)), c15Replay(sc, &solo))
+					continue
+				}
 				if solo.Err != "" || !solo.OK[0] {
 					addFinding("harness:c15:solo:"+sc.Kind, fmt.Sprintf("the %s scenario does not work on the real provider when served alone: %s %v", sc.Kind, solo.Err, solo.Status), c15Replay(sc, &solo))
 					continue
@@ -743,10 +828,19 @@ func init() {
 					}
 				}
 				for _, pl := range plans {
-					for _, flavour := range []string{"copy", "alias"} {
+					for _, flavour := range []string{"copy", "strict", "alias"} {
 						scheds := pl.scheds
 						if flavour == "alias" && len(scheds) > 400 {
 							scheds = scheds[:400]
+						}
+						if flavour == "strict" && len(scheds) > 600 {
+							// (thorough tier, three requests) the strict flavour is compared on every interleaving of two requests
+							// and on a sample of 600 of three, spread evenly over the enumeration (the theorems cover all of them)
+							var sub [][]int
+							for i := 0; i < 600; i++ {
+								sub = append(sub, scheds[i*len(scheds)/600])
+							}
+							scheds = sub
 						}
 						if flavour == "alias" && ctx.Quick() && sc.RespType != "" && len(scheds) > 80 {
 							// (the alias flavour is only monitored; the response-type scenarios differ from one another
@@ -768,25 +862,38 @@ func init() {
 							}
 							ctx.Meta.Dist[fmt.Sprintf("%s/rotation=%v/%s/k=%d/successes=%d", sc.Kind, sc.Rotation, flavour, pl.k, r.successes())]++
 							// the monitor, on the implementation's observations alone
+							if r.Follow {
+								ctx.Meta.Dist[fmt.Sprintf("%s/%s/k=%d/end-to-end-token-responses=%d", sc.Kind, flavour, pl.k, r.e2eTokens())]++
+							}
+							// END TO END: more than one token response out of one request_uri (each racing request kept a
+							// redeemable code / a live callback id of its own)
+							if sc.OneTime && r.Follow && r.e2eTokens() >= 2 {
+								addFinding("race:"+sc.SigKind+":several-token-responses",
+									fmt.Sprintf("%d TOKEN RESPONSES out of one %s: after %d racing /authorize requests (rotation=%v, storage=%s, schedule %v, %d of them succeeded) every code / callback id handed out was redeemed / continued (reverse order: %v) and %v of them ended in tokens - on the unchanged flow the racing requests save under the pushed session's id, later saves overwrite earlier ones and at most one code stays redeemable",
+										r.e2eTokens(), sc.Kind, pl.k, sc.Rotation, flavour, r.Sched, r.successes(), r.Rev, r.E2E), c15Replay(sc, r))
+							}
 							if sc.OneTime && r.successes() >= 2 {
 								sig := c15Signature(sc, r)
 								what := fmt.Sprintf("%d of %d racing requests presenting one %s succeeded (rotation=%v, storage=%s, schedule %v: %d lookups scheduled before the first consume at the flow's call positions, %d observed)",
 									r.successes(), pl.k, sc.Kind, sc.Rotation, flavour, r.Sched, r.Window, r.ObsWindow)
+								if r.strict() && sc.Consume == KADel {
+									what += "; the storage is STRICT (its Delete reports an error when nothing was deleted): only one of the deletes succeeded, a request whose delete failed was answered with tokens all the same"
+								}
 								if sc.RespType != "" {
 									tk, cd, gr := c15Artifacts(r)
 									what += fmt.Sprintf("; the authorization endpoint handed out %d access tokens and %d codes, %d grant sessions were saved", tk, cd, gr)
 								}
 								addFinding(sig, what, c15Replay(sc, r))
 							}
-							if flavour == "copy" {
+							if flavour != "alias" {
 								good = append(good, *r)
-								key := fmt.Sprintf("%s/%v/%d/%v/%v", sc.Kind, sc.Rotation, pl.k, r.OK, r.Logs)
+								key := fmt.Sprintf("%s/%s/%v/%d/%v/%v/%v", sc.Kind, flavour, sc.Rotation, pl.k, r.OK, r.Logs, r.E2E)
 								if r.successes() > 0 && r.successes() < pl.k {
 									distinct[key] = true
 								}
 							}
 						}
-						if flavour != "copy" || len(good) == 0 {
+						if flavour == "alias" || len(good) == 0 {
 							continue
 						}
 						// groups of at most 300 schedules per definition
@@ -795,7 +902,7 @@ func init() {
 							if hi > len(good) {
 								hi = len(good)
 							}
-							g := &c15Group{sc: sc, k: pl.k, exhaustive: pl.exhaustive && lo == 0 && hi == len(good) && len(good) == len(pl.scheds), runs: good[lo:hi]}
+							g := &c15Group{sc: sc, k: pl.k, exhaustive: pl.exhaustive && lo == 0 && hi == len(good) && len(good) == len(pl.scheds) && len(scheds) == len(pl.scheds), runs: good[lo:hi]}
 							groups = append(groups, g)
 							for i := range g.runs {
 								r := &g.runs[i]
@@ -808,7 +915,7 @@ func init() {
 								for j := range obs {
 									obs[j].Raw = truncate(obs[j].Raw, 60)
 								}
-								jcases = append(jcases, map[string]any{"Note": fmt.Sprintf("%s rotation=%v k=%d schedule=%v succeeded=%v", sc.Kind, sc.Rotation, pl.k, r.Sched, r.OK),
+								jcases = append(jcases, map[string]any{"Note": fmt.Sprintf("%s rotation=%v storage=%s k=%d schedule=%v succeeded=%v end-to-end=%v", sc.Kind, sc.Rotation, flavour, pl.k, r.Sched, r.OK, r.E2E),
 									"Spec": r.Spec, "Ops": ops, "Obs": obs, "Race": c15Replay(sc, r)})
 							}
 						}
@@ -829,7 +936,7 @@ func init() {
 			for i, g := range cur {
 				name := fmt.Sprintf("g_%d", i)
 				b.WriteString(g.coq(name))
-				names = append(names, "check_race_group "+name)
+				names = append(names, "check_race_group_x "+name)
 			}
 			fmt.Fprintf(&b, "Definition corr := Eval vm_compute in (%s)%%list.\nPrint corr.\n", strings.Join(names, " ++ "))
 			name := fmt.Sprintf("cases_%03d.v", fileNo)
@@ -854,7 +961,7 @@ func init() {
 		ctx.Meta.Cases = total
 		ctx.Meta.Ops = total
 		ctx.Meta.Distinct = len(distinct)
-		ctx.Meta.Rule = "one case = one schedule imposed on k real concurrent requests presenting one credential (5 scenarios x rotation on/off + the pushed request_uri with each of the 7 response types - implicit and hybrid ones: access token, ID token and grant session issued by the authorization endpoint - quick: one rotation setting each; quick: every interleaving of 2 requests + 24 random interleavings of 3; thorough: every interleaving of 3, sampled to 5000); distinct by (scenario, k, who succeeded, call sequences); non-trivial = at least one request accepted and one refused"
+		ctx.Meta.Rule = "one case = one schedule imposed on k real concurrent requests presenting one credential, on the copy storage and on the STRICT storage (Delete of something absent is an error), followed for racing /authorize requests by the redemption / continuation of every code / callback id handed out (token responses per request_uri counted) (5 scenarios x rotation on/off + the pushed request_uri with each of the 7 response types - implicit and hybrid ones: access token, ID token and grant session issued by the authorization endpoint - quick: one rotation setting each; quick: every interleaving of 2 requests + 24 random interleavings of 3; thorough: every interleaving of 3, sampled to 5000); distinct by (scenario, k, who succeeded, call sequences); non-trivial = at least one request accepted and one refused"
 		var sigs []string
 		for s := range findings {
 			sigs = append(sigs, s)
@@ -866,7 +973,7 @@ func init() {
 		for i := 0; i < len(jcases) && len(ctx.Meta.Samples) < 2; i += 37 {
 			ctx.Meta.Samples = append(ctx.Meta.Samples, map[string]any{"note": jcases[i]["Note"], "race": jcases[i]["Race"]})
 		}
-		ctx.Meta.Extra = map[string]any{"schedules_not_imposed": harnessErrs, "storage_flavour_compared_with_model": "copy", "storage_flavours_monitored": []string{"copy", "alias"}}
+		ctx.Meta.Extra = map[string]any{"schedules_not_imposed": harnessErrs, "storage_flavours_compared_with_model": []string{"copy", "strict"}, "storage_flavours_monitored": []string{"copy", "strict", "alias"}}
 	}})
 
 	replayers["c15"] = func(path string) int {
@@ -882,6 +989,7 @@ func init() {
 				Flavour  string `json:"flavour"`
 				Requests int    `json:"requests"`
 				Schedule []int  `json:"schedule"`
+				Rev      bool   `json:"follow_ups_reversed"`
 			} `json:"replay"`
 			Race *struct {
 				Kind     string `json:"kind"`
@@ -889,28 +997,30 @@ func init() {
 				Flavour  string `json:"flavour"`
 				Requests int    `json:"requests"`
 				Schedule []int  `json:"schedule"`
+				Rev      bool   `json:"follow_ups_reversed"`
 			} `json:"Race"`
 			Kind     string `json:"kind"`
 			Rotation bool   `json:"rotation"`
 			Flavour  string `json:"flavour"`
 			Requests int    `json:"requests"`
 			Schedule []int  `json:"schedule"`
+			Rev      bool   `json:"follow_ups_reversed"`
 		}
 		if err := json.Unmarshal(b, &rp); err != nil {
 			fmt.Fprintln(os.Stderr, err)
 			return 2
 		}
-		kind, rot, fl, k, sched := rp.Kind, rp.Rotation, rp.Flavour, rp.Requests, rp.Schedule
+		kind, rot, fl, k, sched, rev := rp.Kind, rp.Rotation, rp.Flavour, rp.Requests, rp.Schedule, rp.Rev
 		if rp.Replay != nil {
-			kind, rot, fl, k, sched = rp.Replay.Kind, rp.Replay.Rotation, rp.Replay.Flavour, rp.Replay.Requests, rp.Replay.Schedule
+			kind, rot, fl, k, sched, rev = rp.Replay.Kind, rp.Replay.Rotation, rp.Replay.Flavour, rp.Replay.Requests, rp.Replay.Schedule, rp.Replay.Rev
 		} else if rp.Race != nil {
-			kind, rot, fl, k, sched = rp.Race.Kind, rp.Race.Rotation, rp.Race.Flavour, rp.Race.Requests, rp.Race.Schedule
+			kind, rot, fl, k, sched, rev = rp.Race.Kind, rp.Race.Rotation, rp.Race.Flavour, rp.Race.Requests, rp.Race.Schedule, rp.Race.Rev
 		}
 		for _, sc := range append(c15Scenarios(rot), c15UriScenarios(rot)...) {
 			if sc.Kind != kind {
 				continue
 			}
-			r := c15Execute(sc, fl, k, sched)
+			r := c15Execute(sc, fl, k, sched, rev)
 			r.Window = c15WindowCount(sched, k, sc.L, sc.C)
 			r.ObsWindow = c15ObservedWindow(r.Trace, k, sc.Lookup, sc.Consume)
 			m := c15Replay(sc, &r)
